@@ -129,6 +129,7 @@ type Machine struct {
 	hashVars  map[string]*Term
 	hashApps  []hashApp
 	absHash   bool
+	absHashPrefix string
 	mapOrder  int
 	funcsSeen map[*ssa.Function]int
 	lockset   *locksetState
@@ -584,6 +585,7 @@ func (m *Machine) resetPath(prefix []int32) {
 	m.hashVars = map[string]*Term{}
 	m.hashApps = nil
 	m.absHash = false
+	m.absHashPrefix = ""
 	m.mapOrder = 1
 	m.lockset = nil
 	m.expectPanic = false
